@@ -178,7 +178,7 @@ func init() {
 				}
 			}
 			switch {
-			case out == "unsat" && (in == "unsat" || in == "sat"):
+			case out == "unsat": // inside the listed region nothing is claimed; "in" only decides whether the finding is printed
 				ex.Discharged[label]++
 			case out == "sat":
 			default:
